@@ -36,12 +36,14 @@ def bundle_dims(n_ring, n_duct=1, P=0.0065, D=0.0055, Dw=0.00095, wall=0.002, by
 def make_rodded(n_ring=2, n_duct=1, fr=1.0, corr=('CTD', 'CTD', 'CTD'), spacer_grid=None,
                 byp_ff=None, wwdir='clockwise', coolant=None, duct=None, gravity=False,
                 se2=False, sf=1.0, H=0.2, dims=None, update_tol=0.0, byp_k=None):
+    from symx import npshim
     d = dims or bundle_dims(n_ring, n_duct)
     coolant = coolant or Material('sodium')
     duct = duct or Material('ht9')
-    r = rrm.RoddedRegion('fx', n_ring, d['P'], d['D'], H, d['Dw'], 0.0005, list(d['ftf']), fr,
-                         coolant, duct, None, corr[0], corr[1], corr[2], 'DB', None,
-                         spacer_grid, byp_ff, byp_k, wwdir, sf, se2, update_tol, gravity)
+    with npshim.unpatched():
+        r = rrm.RoddedRegion('fx', n_ring, d['P'], d['D'], H, d['Dw'], 0.0005, list(d['ftf']), fr,
+                             coolant, duct, None, corr[0], corr[1], corr[2], 'DB', None,
+                             spacer_grid, byp_ff, byp_k, wwdir, sf, se2, update_tol, gravity)
     return r
 
 
@@ -49,5 +51,7 @@ def make_unrodded(model='simple', fr=1.0, ftf=(0.026, 0.028), vf=0.3, z=(0.0, 1.
                   duct=None, convection_factor=1.0, lowflow=False, gravity=False, rr_equiv=None, **kw):
     coolant = coolant or Material('sodium')
     duct = duct or Material('ht9')
+    from symx import npshim
     cls = rum.SingleNodeHomogeneous if model == 'simple' else rum.MultiNodeHomogeneous
-    return cls('ur', z[0], z[1], list(ftf), vf, fr, coolant, duct, None, **kw)
+    with npshim.unpatched():
+        return cls('ur', z[0], z[1], list(ftf), vf, fr, coolant, duct, None, **kw)
